@@ -150,6 +150,48 @@ Section Proofs2.
     exists used. split; [assumption|]. exact H2.
   Qed.
 
+  (* "correctly" includes "completely": when every fetched content hashes to its id, every read
+     restore performs below the tree succeeds *)
+  Lemma correct_readable sel : forall fuel strict i,
+    correct sel strict fuel i = Some true -> readable B blen parse st sel fuel i = Some true.
+  Proof.
+    induction fuel as [|f IH]; intros strict i H; [discriminate|].
+    simpl in H. simpl.
+    destruct (fetch B blen st sel BTree i) as [d|]; [|discriminate].
+    destruct (parse d) as [t|]; [|discriminate].
+    revert H. generalize (negb strict || (hash d =? i)). intros b0 H.
+    assert (G : b0 = true /\
+      fold_right (fun n acc =>
+        match acc with
+        | None => None
+        | Some ok =>
+          match n with
+          | NOther => Some ok
+          | NFile None => Some ok
+          | NFile (Some c) =>
+            Some (ok && forallb (fun ci => match fetch B blen st sel BData ci with Some _ => true | None => false end) c)
+          | NDir None => Some false
+          | NDir (Some s) => match readable B blen parse st sel f s with Some o => Some (ok && o) | None => None end
+          end
+        end) (Some true) t = Some true); [|apply G].
+    revert H. induction t as [|n t IHt]; intro H.
+    - simpl in H. injection H as H1. split; [assumption|reflexivity].
+    - simpl in H. simpl.
+      match type of H with context [fold_right ?F ?A t] => destruct (fold_right F A t) as [ok|] eqn:Ef end; [|discriminate].
+      destruct n as [[c|]|[s|]|].
+      + injection H as H1. apply andb_true_iff in H1. destruct H1 as [Hok Hc]. subst ok.
+        destruct (IHt eq_refl) as [Hb Hr]. split; [exact Hb|]. rewrite Hr. simpl. f_equal.
+        apply forallb_forall. intros ci Hci. rewrite forallb_forall in Hc. specialize (Hc ci Hci).
+        destruct (fetch B blen st sel BData ci); [reflexivity|discriminate].
+      + discriminate.
+      + destruct (correct sel true f s) as [o|] eqn:Ec; [|discriminate].
+        injection H as H1. apply andb_true_iff in H1. destruct H1 as [Hok Ho]. subst ok o.
+        destruct (IHt eq_refl) as [Hb Hr]. split; [assumption|]. rewrite Hr.
+        rewrite (IH true s Ec). reflexivity.
+      + discriminate.
+      + injection H as H1; subst ok. destruct (IHt eq_refl) as [Hb Hr]. split; [assumption|]. rewrite Hr. reflexivity.
+  Qed.
+
   (* collision-freedom turns "hashes to its id" into "is the content that was stored under the id" *)
   Lemma hash_determines_content :
     (forall b b', hash b = hash b' -> b = b') ->
